@@ -1,15 +1,16 @@
 SPECIFICATION Spec
 CONSTANTS
   U = "quick"
-  Kind = "obj"
+  Kind = "nest"
   InitPartial = FALSE
   Mirror = FALSE
-  MaxLevel = 40
-  Small = FALSE
+  MaxLevel = 4
+  Small = TRUE
   Avoid = FALSE
-  SimK = 1
-  Acts = {"dset", "oset", "rebind", "ddel", "batch", "lset", "ldel", "slice", "lins", "inplace", "xslice"}
+  SimK = 0
+  Acts = {"oset", "rebind", "nest"}
 CONSTRAINT LevelBound
+VIEW view
 INVARIANT Conforms
 INVARIANT AltsConform
 PROPERTY RejectedWriteNoStore
